@@ -109,12 +109,14 @@ def reader_rule(ctx, rep, half, name, b, expected_reads, helper_names, allow_sec
     body = se.body
     # (i) what is called on the reader
     io_calls = [(bb, t) for bb, t in body.calls() if t.get("callee_trait") == "std::io::Read" or (t.get("callee") or "").startswith("std::io::Read::")]
+    # (`reader.by_ref()` is `&mut reader`: the same reader)
+    io_calls = [(bb, t) for bb, t in io_calls if t.get("callee") != "std::io::Read::by_ref"]
     names = sorted({t.get("callee") for _, t in io_calls})
     rep.check(names == ["std::io::Read::read_exact"], "reader", fn, "only-read_exact", "%d read_exact call(s), no other Read method" % len(io_calls), "reader is used through %s (fragmented or interrupted input would be mishandled)" % names, body.loc())
     # the reader escapes nowhere else
     esc = []
     for bb, i in se.term_info.items():
-        if i.get("k") == "call" and i["name"] != "std::io::Read::read_exact":
+        if i.get("k") == "call" and i["name"] not in ("std::io::Read::read_exact", "std::io::Read::by_ref"):
             for a in i.get("locargs", i["args"]):
                 if peel_after(strip(a), se, bb) == ("param", 2):
                     esc.append(i["name"])
